@@ -47,7 +47,8 @@ CHECKS = {
         rule='rapid-generated plans; non-trivial = a request with >= 4 filters or with an invalid filter/QoS, or an unsubscribe of a held filter followed by deliveries that distinguish the outcome; distinct = FNV-64 of the plan JSON',
         assumptions=["unit sequential: 'takes effect at the ack' is judged for publishes sent after the ack was read", "unit ack-timing: the window between acknowledgement and effect is probed at the calls into the subscription store only (before/after each Subscribe/Unsubscribe call of the request), with one concurrent publisher"],
         units=[dict(name="sequential", test="TestC07", checks=(6000, 600000), shards=(4, 14), timeout=(240, 3000)),
-               dict(name="ack-timing", test="TestC07Ack", checks=(1200, 120000), shards=(4, 14), timeout=(240, 3000))]),
+               dict(name="ack-timing", test="TestC07Ack", checks=(1200, 120000), shards=(4, 14), timeout=(240, 3000)),
+               dict(name="fanout-churn", test="TestC07Churn", checks=(2000, 150000), shards=(4, 14), timeout=(240, 3000))]),
 
     "C08": dict(
         pkg="p_broker", level="exploration",
@@ -152,7 +153,8 @@ CHECKS = {
         assumptions=["topics and filters never start with '$'", "one live connection per client identifier", "unit sequential: exact cuts; unit in-process: subscriptions do not change while messages flow"],
         units=[dict(name="sequential", test="TestC01", checks=(6000, 400000), shards=(4, 14), timeout=(240, 3000)),
                dict(name="concurrent", test="TestC01Concurrent", checks=(2400, 150000), shards=(4, 14), timeout=(240, 3000)),
-               dict(name="in-process", test="TestC01Inproc", checks=(3600, 200000), shards=(4, 14), timeout=(240, 3000))]),
+               dict(name="in-process", test="TestC01Inproc", checks=(3600, 200000), shards=(4, 14), timeout=(240, 3000)),
+               dict(name="fanout-churn", test="TestC01Churn", checks=(2000, 150000), shards=(4, 14), timeout=(240, 3000))]),
 
     "C02": dict(
         pkg="p_broker", level="exploration",
